@@ -30,11 +30,11 @@ Proof. intro o. destruct o; try split_kind; reflexivity. Qed.
 (* the rebuilding step: each operator by the method of its own name, defined by IdentityDagWalker,
    FUNCTION by Substituter.walk_function *)
 Theorem subst_dispatch_is_by_name : forall n, subst_dispatch n = default_handler n.
-Proof. apply node_type_case. vm_compute. repeat constructor. Qed.
+Proof. apply by_table. vm_compute. reflexivity. Qed.
 
 Theorem subst_origin_matches_source : forall n,
   subst_origin n = if nt_eqb n NT_FUNCTION then "Substituter" else "IdentityDagWalker".
-Proof. apply node_type_case. vm_compute. repeat constructor. Qed.
+Proof. apply by_table. vm_compute. reflexivity. Qed.
 
 Theorem rebuild_fn_only_looks_at_functions : forall ds p o args,
   subst_origin (nt_of_op o) = "IdentityDagWalker" -> rebuild_fn ds p o args = checked (rebuild o args).
